@@ -21,7 +21,7 @@ Modelled, branch for branch:
 -/
 namespace ChiModel.Dosing
 
-inductive Err | zeroDivision | protocolEvent | simultaneous | nonFinite
+inductive Err | zeroDivision | protocolEvent | simultaneous | nonFinite | keyError
   deriving Repr, DecidableEq
 
 /-- `myokit.ProtocolEvent` -/
@@ -222,6 +222,83 @@ def setDataRun (dflt : Rat) : Option (List (String × List Event)) →
   | s, d :: ds => match setDataRegimens dflt s d with
     | .error e => .error e
     | .ok s' => setDataRun dflt s' ds
+
+/-! ## the frame `set_data` holds, and the regimens the log-posteriors are built with -/
+
+/-- one row of the data frame: its pandas row label (labels need not be unique — a frame glued from
+    pieces repeats them), the individual's ID, the dose columns -/
+structure FrameRow where
+  label : Int
+  id : String
+  row : DoseRow
+  deriving Repr
+
+/-- `data[id_key].unique()`: the IDs in the order of their first appearance -/
+def firstSeen : List String → List String
+  | [] => []
+  | a :: l => a :: (firstSeen l).filter (fun b => b != a)
+
+/-- `self._data[[time, dose, duration]][self._data[id_key] == label]`: the rows of one individual are
+    selected by a boolean mask over the ID column, in frame order; row labels play no role -/
+def rowsOf (frame : List FrameRow) (id : String) : List DoseRow :=
+  (frame.filter (fun r => r.id == id)).map (·.row)
+
+/-- the individuals of a frame with their rows: what `_extract_dosing_regimens` loops over -/
+def frameIndividuals (frame : List FrameRow) : List (String × List DoseRow) :=
+  (firstSeen (frame.map (·.id))).map (fun id => (id, rowsOf frame id))
+
+/-- `set_data(frame)` with dose information → `get_dosing_regimens()` -/
+def frameRegimens (dflt : Rat) (frame : List FrameRow) :
+    Except Err (Option (List (String × List Event))) :=
+  setDataRegimens dflt none (some (frameIndividuals frame))
+
+/-- NOT what chi does — selection of an individual's rows by row LABEL (`data.loc[labels]`): every
+    row carrying the label of one of the individual's rows.  Agrees with `rowsOf` exactly when the
+    labels are unique (`C10_frame_by_label`, `C10_frame_by_label_counterexample`). -/
+def rowsOfByLabel (frame : List FrameRow) (id : String) : List DoseRow :=
+  let labels := (frame.filter (fun r => r.id == id)).map (·.label)
+  (frame.filter (fun r => labels.contains r.label)).map (·.row)
+
+/-- the regimen on the working copy of the mechanistic model after
+    `if self._dosing_regimens: model.set_dosing_regimen(self._dosing_regimens[individual])`:
+    `cur` is the regimen the copy carries (at first the one the controller's model was created with,
+    `none` = never dosed); an individual without dose rows has the EMPTY protocol, which is set like
+    any other -/
+def setFor (regs : Option (List (String × List Event))) (cur : Option (List Event)) (id : String) :
+    Except Err (Option (List Event)) :=
+  match regs with
+  | none => .ok cur
+  | some [] => .ok cur
+  | some (p :: r) =>
+    match (p :: r).lookup id with
+    | some evs => .ok (some evs)
+    | none => .error .keyError
+
+/-- `ProblemModellingController._create_log_likelihoods(ids)`: ONE working copy for all individuals
+    of the call; each `LogLikelihood` keeps its own copy of the model as it is when it is created →
+    the regimen every individual's likelihood simulates with -/
+def likelihoodRegimens (regs : Option (List (String × List Event))) :
+    Option (List Event) → List String → Except Err (List (String × Option (List Event)))
+  | _, [] => .ok []
+  | cur, id :: rest =>
+    match setFor regs cur id with
+    | .error e => .error e
+    | .ok cur' =>
+      match likelihoodRegimens regs cur' rest with
+      | .error e => .error e
+      | .ok out => .ok ((id, cur') :: out)
+
+/-- NOT what chi does — a working copy on which an individual's regimen is only set when it has
+    events (`if regimen:` — a `myokit.Protocol` without events is falsy): an untreated individual
+    inherits whatever the copy carries (`C10_likelihood_skip_empty_counterexample`) -/
+def likelihoodRegimensSkipEmpty (regs : List (String × List Event)) :
+    Option (List Event) → List String → List (String × Option (List Event))
+  | _, [] => []
+  | cur, id :: rest =>
+    let cur' := match regs.lookup id with
+      | some (e :: es) => some (e :: es)
+      | _ => cur
+    (id, cur') :: likelihoodRegimensSkipEmpty regs cur' rest
 
 /-! ## model surgery -/
 
